@@ -102,6 +102,11 @@ def tlc(wd, module, cfg_text, timeout=600, workers=1, heap="3g", extra_args=(), 
     m = re.findall(r"(\d+) states generated, (\d+) distinct states found", out)
     if m:
         res["states"], res["distinct"] = int(m[-1][0]), int(m[-1][1])
+    ms = re.search(r"The number of states generated: (\d+)", out)   # simulation mode
+    if ms and not res["states"]:
+        res["states"] = int(ms.group(1))
+        mt = re.findall(r"(\d+) traces generated", out)
+        res["traces"] = int(mt[-1]) if mt else 0
     m = re.search(r"The depth of the complete state graph search is (\d+)", out)
     if m:
         res["depth"] = int(m.group(1))
